@@ -43,8 +43,13 @@ PNext == \/ /\ Len(hist) < MaxLen
             /\ n' = n + 1 /\ UNCHANGED case
          \/ /\ Len(hist) = MaxLen /\ n = MaxLen
             /\ n' = n + 1 /\ UNCHANGED <<st, hist, reads, case>>
+\* number of reads in a program that return blob b1 (the blob that carries the size class): by replay
+RECURSIVE ReadsB1(_, _)
+ReadsB1(s, ops) == IF ops = <<>> THEN 0
+                   ELSE LET s2 == Step(s, Head(ops)) IN
+                        (IF s2.res.kind = "get" /\ s2.res.v = "b1" THEN 1 ELSE 0) + ReadsB1(s2, Tail(ops))
 EmitProg == IF n = MaxLen + 1
-            THEN PrintT(ToJson([sem |-> st.sem, prog |-> hist, reads |-> reads]))
+            THEN PrintT(ToJson([sem |-> st.sem, prog |-> hist, reads |-> reads, reads1 |-> ReadsB1(InitState(st.sem, FALSE), hist)]))
             ELSE TRUE
 
 \* ---- (3) witness programs: breadth-first search (restricted alphabet) for the shortest program on
